@@ -18,6 +18,8 @@ pub enum ElemKind {
     Pl = 2,
     /// tracked like Tr, but 32 bytes with 32-byte alignment (layout-sensitive paths)
     Al = 3,
+    /// zero-sized AND without Drop: nothing to track, only call counts and shapes are checked
+    Zp = 4,
 }
 impl ElemKind {
     pub fn name(self) -> &'static str {
@@ -26,6 +28,7 @@ impl ElemKind {
             ElemKind::Zt => "Zt",
             ElemKind::Pl => "Pl",
             ElemKind::Al => "Al",
+            ElemKind::Zp => "Zp",
         }
     }
     pub fn from_name(s: &str) -> Option<ElemKind> {
@@ -34,6 +37,7 @@ impl ElemKind {
             "Zt" => ElemKind::Zt,
             "Pl" => ElemKind::Pl,
             "Al" => ElemKind::Al,
+            "Zp" => ElemKind::Zp,
             _ => return None,
         })
     }
@@ -404,5 +408,62 @@ impl Serialize for Al {
 impl<'de> Deserialize<'de> for Al {
     fn deserialize<D: Deserializer<'de>>(d: D) -> Result<Al, D::Error> {
         Tr::deserialize(d).map(Al)
+    }
+}
+
+// ---------------------------------------------------------------------------
+
+/// Zero-sized and plain (no `Drop`): selects fast paths keyed on `size_of == 0 && !needs_drop`.
+pub struct Zp(());
+impl Clone for Zp {
+    fn clone(&self) -> Zp {
+        let _g = enter(Ctx::Work);
+        ledger::tick(Seam::Clone);
+        ledger::note_clone(0, 0);
+        Zp(())
+    }
+}
+impl Default for Zp {
+    fn default() -> Zp {
+        let _g = enter(Ctx::Work);
+        ledger::tick(Seam::Default);
+        Zp(())
+    }
+}
+impl Elem for Zp {
+    const KIND: ElemKind = ElemKind::Zp;
+    const TRACKED: bool = false;
+    const HAS_ID: bool = false;
+    fn make() -> Zp {
+        ledger::ev(ledger::EV_CREATE, 0, 3);
+        Zp(())
+    }
+    fn observe(&self, _site: u32) -> u32 {
+        0
+    }
+    fn walk(&self) -> u32 {
+        0
+    }
+    fn debug_of(_id: u32) -> String {
+        "#".to_string()
+    }
+}
+impl std::fmt::Debug for Zp {
+    fn fmt(&self, f: &mut std::fmt::Formatter) -> std::fmt::Result {
+        f.write_str("#")
+    }
+}
+impl Serialize for Zp {
+    fn serialize<S: Serializer>(&self, s: S) -> Result<S::Ok, S::Error> {
+        s.serialize_u32(0)
+    }
+}
+impl<'de> Deserialize<'de> for Zp {
+    fn deserialize<D: Deserializer<'de>>(d: D) -> Result<Zp, D::Error> {
+        let v = u32::deserialize(d)?;
+        let _g = enter(Ctx::Work);
+        ledger::tick(Seam::DeElem);
+        ledger::note_clone(v, 0);
+        Ok(Zp(()))
     }
 }
